@@ -64,14 +64,25 @@ def Mem.modifyRegion (m : Mem) (region : Nat) (f : ByteArray → Except String B
     let b' ← f b
     pure { regions := regions.setIfInBounds s b' }
 
+/-- the coordinates of an `h × w × d` box in NHWC order -/
+def coords3 (h w d : Nat) : List (Nat × Nat × Nat) :=
+  (List.range h).flatMap fun y => (List.range w).flatMap fun x => (List.range d).map fun c => (y, x, c)
+
+/-- the elements of the box a feature-map register set describes, in NHWC order: element `(y, x, c)` is read at
+    `fmAddr fm y x c` (structural, so that `Props/C01.lean` can reason about it: `gatherList_get`) -/
+def gatherList (m : Mem) (fm : FM) : Except String (List Int) :=
+  (coords3 fm.height fm.width fm.depth).mapM fun (y, x, c) => m.readElem fm.region (fmAddr fm y x c) fm.elemBytes fm.signed
+
+/-- what the memory holds for element `(y, x, c)` of a feature map (0 where the read fails) -/
+def memFm (m : Mem) (fm : FM) (y x c : Nat) : Int :=
+  match m.readElem fm.region (fmAddr fm y x c) fm.elemBytes fm.signed with
+  | .ok v => v
+  | .error _ => 0
+
+
 /-- logical NHWC array of the box a feature-map register set describes -/
 def gather (m : Mem) (fm : FM) : Except String (Array Int) := do
-  let mut out : Array Int := Array.mkEmpty (fm.height * fm.width * fm.depth)
-  for y in [0:fm.height] do
-    for x in [0:fm.width] do
-      for c in [0:fm.depth] do
-        out := out.push (← m.readElem fm.region (fmAddr fm y x c) fm.elemBytes fm.signed)
-  return out
+  return (← gatherList m fm).toArray
 
 def scatter (m : Mem) (fm : FM) (vals : Array Int) : Except String Mem :=
   m.modifyRegion fm.region fun b0 => do
@@ -167,6 +178,20 @@ def addOperands (mode : Nat) (bits16 : Bool) (a b : Int) (opaScale opaShift opbS
   else if mode = 1 then (npuScaleTfl (a * (2 : Int) ^ L) opaScale (opaShift + L), b * (2 : Int) ^ (L - 1))
   else (a * (2 : Int) ^ (L - 1), npuScaleTfl (b * (2 : Int) ^ L) opaScale (opaShift + L))
 
+/-- OFM values of a convolution / depthwise block before the activation clamp, in NHWC order: element
+    `(oy, ox, oc)` is the accumulator of that position (`convAcc` / `dwAcc`) plus the bias of channel `oc`, scaled with the
+    channel's scale record, plus the OFM zero point (pure and structural: `Props/C01.convValues_get`) -/
+def convValues (depthwise : Bool) (H W C : Nat) (ifmAt : Nat → Nat → Nat → Int) (kh kw : Nat)
+    (wAt : Nat → Nat → Nat → Nat → Int) (sy sx dy dx padTop padLeft : Nat) (zp ozp : Int) (rounding : Rounding)
+    (recs : Array ScaleRec) (oh ow od : Nat) : List Int :=
+  (List.range oh).flatMap fun oy => (List.range ow).flatMap fun ox => (List.range od).map fun oc =>
+    let acc := if depthwise then
+        dwAcc H W (fun y x => ifmAt y x oc) kh kw (fun ky kx => wAt oc ky kx 0) sy sx dy dx padTop padLeft zp oy ox
+      else
+        convAcc H W C ifmAt kh kw (fun ky kx ic => wAt oc ky kx ic) sy sx dy dx padTop padLeft zp oy ox
+    let r := recs.getD oc default
+    npuScale rounding (acc + r.bias) r.scale r.shift + ozp
+
 /-! ## Block operations -/
 
 def lo32 (v : Nat) : Nat := v % 4294967296
@@ -244,16 +269,10 @@ def execBlock (m : Mem) (ctx : Ctx) (b : BlockOp) (regs : RegFile) (w : Option W
     if b.kind == .depthwise ∧ (w.ic ≠ 1 ∨ C ≠ od) then throw "depthwise weights / depth mismatch"
     let recs ← (List.range od).mapM fun c => readScaleRec m b.scales ctx.ncores c
     let recs := recs.toArray
-    for oy in [0:oh] do
-      for ox in [0:ow] do
-        for oc in [0:od] do
-          let acc := if b.kind == .conv then
-              convAcc H W C ifmAt kh kw (fun ky kx ic => w.at oc ky kx ic) b.strideY b.strideX b.dilationY b.dilationX b.padTop b.padLeft zp oy ox
-            else
-              dwAcc H W (fun y x => ifmAt y x oc) kh kw (fun ky kx => w.at oc ky kx 0) b.strideY b.strideX b.dilationY b.dilationX b.padTop b.padLeft zp oy ox
-          let r := recs.getD oc default
-          let v := npuScale rounding (acc + r.bias) r.scale r.shift + ozp
-          out := out.push (← finish v)
+    let vals := convValues (b.kind == .depthwise) H W C ifmAt kh kw (fun oc ky kx ic => w.at oc ky kx ic)
+      b.strideY b.strideX b.dilationY b.dilationX b.padTop b.padLeft zp ozp rounding recs oh ow od
+    for v in vals do
+      out := out.push (← finish v)
   | .pool =>
     if b.subOp > 1 then throw "unsupported:reduce_sum"
     if b.dilationX ≠ 1 ∨ b.dilationY ≠ 1 then throw "pooling with dilation"
